@@ -425,6 +425,31 @@ func newLockAnalysis(c *Ctx) *lockAnalysis {
 			la.site[child] = site
 		})
 	}
+	// function literals without free variables are plain function values, not MakeClosure
+	for _, fn := range la.funcs {
+		eachInstr(fn, func(in ssa.Instruction) {
+			ci, ok := in.(ssa.CallInstruction)
+			if !ok {
+				return
+			}
+			child, ok := ci.Common().Value.(*ssa.Function)
+			if !ok || child.Parent() != fn {
+				return
+			}
+			if _, seen := la.kind[child]; seen {
+				return
+			}
+			switch in.(type) {
+			case *ssa.Go:
+				la.kind[child] = "go"
+			case *ssa.Defer:
+				la.kind[child] = "defer"
+			default:
+				la.kind[child] = "sync"
+			}
+			la.site[child] = in
+		})
+	}
 	// initial entries
 	for _, fn := range la.funcs {
 		if fn.Parent() != nil {
